@@ -15,7 +15,8 @@ import sys
 from concurrent.futures import ThreadPoolExecutor
 from pathlib import Path
 
-OUT = Path("/tmp/mut/out")
+OUT = Path(os.environ.get("SEED_SRC", "/tmp/mut/out"))
+OFFSET = int(os.environ.get("SEED_OFFSET", "0"))
 SEEDED = Path("/verif/seeded")
 
 
@@ -52,7 +53,7 @@ def confirm(pid, k):
         verdict = dict(demo_clean_exit=clean.returncode, demo_mutated_exit=mut.returncode, tests=summary[-1] if summary else tests.stdout[-200:])
         good = clean.returncode == 0 and mut.returncode == 1 and ok_tests
         if good:
-            d = SEEDED / f"{pid}-{k}"
+            d = SEEDED / f"{pid}-{k + OFFSET}"
             d.mkdir(parents=True, exist_ok=True)
             shutil.copy(patch, d / "patch.diff")
             shutil.copy(demo, d / "demo.py")
